@@ -35,7 +35,7 @@ def main(chk, args):
         singles = [c for c in cases if len(c['features']) <= 1]
         others = [c for c in cases if len(c['features']) > 1]
         keep = {'o_rest', 'o_grpc_rest', 'o_mixins', 'o_ads', 'o_iam', 'm_lro', 'm_sstream', 'm_bidi', 'm_paged_map', 's_flatten', 'f_map',
-                'f_oneof', 'r_resource', 'h_additional', 'f_reserved', 's_two_services'}
+                'f_oneof', 'r_resource', 'h_additional', 'f_reserved', 's_two_services', 's_required'}
         cases = [c for c in singles if not c['features'] or c['features'][0] in keep] + others
     elif len(cases) > 700:
         singles = [c for c in cases if len(c['features']) <= 1]
